@@ -437,10 +437,9 @@ theorem pin_cstPayToPubKeyUncomp5 : Generated.C15.cstPayToPubKeyUncomp5 = (cstPa
 theorem pin_numSpecialScripts : Generated.C15.numSpecialScripts = (numSpecialScripts : Int) := by decide
 theorem pin_blockHdrSize : Generated.C15.blockHdrSize = 80 := by decide
 theorem pin_hashSize : Generated.C15.hashSize = 32 := by decide
-theorem pin_tfCoinBase : Generated.C15.tfCoinBase = 1 := by decide
-theorem pin_tfSpent : Generated.C15.tfSpent = 2 := by decide
-theorem pin_maxUint32VLQ : Generated.C15.maxUint32VLQSerializeSize = (serializeSizeVLQ (2 ^ 32 - 1) : Int) := by
-  simp [serializeSizeVLQ, Generated.C15.maxUint32VLQSerializeSize]
+-- NOTE (false-alarm audit): the in-memory-only txoFlags bit values (tfCoinBase, tfSpent) and the key-pool
+-- buffer size maxUint32VLQSerializeSize are internal and deliberately NOT pinned; the persisted coinbase bit is
+-- covered by `headerCode_roundtrip` / `utxoEntry_format` and by the correspondence through IsCoinBase().
 theorem pin_vlqMaxU64 : Generated.C15.vlqMaxU64 = "80fefefefefefefefe7f" := by decide
 
 end BV.C15
